@@ -64,6 +64,12 @@ pub fn seeds_for(width: usize) -> Vec<Vec<MapOp>> {
         h.extend((0..removed).map(MapOp::Remove));
         v.push(h);
     }
+    // grown one size further, then thinned to about one group (shrinking decisions at the group-width boundary)
+    for left in [w + 1, w, w - 1] {
+        let mut h = ins(fill + 2);
+        h.extend((left..fill + 2).map(MapOp::Remove));
+        v.push(h);
+    }
     // suffix removal, every-other removal
     let mut h = ins(fill);
     h.extend((fill / 2..fill).map(MapOp::Remove));
